@@ -124,7 +124,10 @@ CHECKS = {
          "bolt commit internals and the OS page cache are not enumerable: bolt crash points are not covered in the quick tier; "
          "three crash windows of the fs backends are listed known findings (F17, F24, F25)"),
  "C07": ("model_checking",
-         "Concurrent histories are recorded from the real handler (2-4 clients x 12 ops on 2 keys: put/get/head/delete/copy/list, "
+         "Small concurrent programs (2-4 clients, 1-2 operations each on 1-2 keys, versioned and multipart included, bodies "
+         "arriving in two halves) are run under EVERY interleaving of their park points (entry of each call made on the backend, "
+         "middle of a request body, first write of a download), enumerated depth first by the harness; deadlocks are reported "
+         "with their schedule. Concurrent histories are also recorded from free-running clients (2-4 clients x 12 ops on 2 keys: put/get/head/delete/copy/list, "
          "versioned puts and reads by id, concurrent part uploads and completes; every slow-uploader and slow-reader scenario "
          "built from gated request bodies and response writers; thorough: up to 16 clients, more seeds) on every backend incl. "
          "real directories, ordered by one atomic counter. TLC (spec/TraceConc.tla) searches for a linearization: silent Lin "
@@ -135,8 +138,9 @@ CHECKS = {
          "same runs are decided a second time, search-free, from state traces recorded under the backend's lock (TraceMem.tla).",
          "trace validation with linearization search by TLC (TraceConc.tla) + state-trace refinement check (TraceMem.tla); "
          "race/deadlock clause observed (Go race detector, deadlines)",
-         "data races and deadlocks are observations made while recording, not model-checked; schedules are those the Go "
-         "scheduler and the gates produce, not all interleavings"),
+         "data races and deadlocks are observations made while recording, not model-checked; all interleavings are "
+         "enumerated only for the small programs and only at the granularity of backend calls / body halves / download start; "
+         "larger histories are those the Go scheduler and the gates produce"),
  "C09": ("model_checking",
          "TLC enumerates the abstract request grammar (7 methods x 15 path shapes x 19 routed sub-resource sets, with one further "
          "dimension varied per request: 18 parameters x 10 value classes, 45 header variants incl. hostile copy sources, ranges, "
